@@ -82,7 +82,7 @@ func resolveNAT(p *Prog) *natRoles {
 			// pairing helpers: which list do they return an element of?
 			for _, v := range returnedValues(f, 0) {
 				if u, ok := v.(*ssa.UnOp); ok {
-					if ia, ok := u.X.(*ssa.IndexAddr); ok {
+					if ia, ok := origin(u.X).(*ssa.IndexAddr); ok {
 						if isFieldLoad(ia.X, natT, fMappedIPs) {
 							r.pairMapped = f
 						}
@@ -172,7 +172,7 @@ func addrClass(v ssa.Value) string {
 			return "field:" + fr.SName + "." + fr.Field
 		}
 		if ex, ok := v.(*ssa.Extract); ok {
-			if cl, ok := ex.Tuple.(*ssa.Call); ok {
+			if cl, ok := origin(ex.Tuple).(*ssa.Call); ok {
 				return fmt.Sprintf("call:%s#%d", callName(cl), ex.Index)
 			}
 		}
@@ -226,11 +226,11 @@ func sprintfArgs(call *ssa.Call) []ssa.Value {
 	if len(call.Call.Args) < 2 {
 		return nil
 	}
-	sl, ok := call.Call.Args[1].(*ssa.Slice)
+	sl, ok := origin(call.Call.Args[1]).(*ssa.Slice)
 	if !ok {
 		return nil
 	}
-	al, ok := sl.X.(*ssa.Alloc)
+	al, ok := origin(sl.X).(*ssa.Alloc)
 	if !ok {
 		return nil
 	}
@@ -291,7 +291,7 @@ func keyPartsS(v ssa.Value, depth int, subst map[ssa.Value]ssa.Value) []kpart {
 		return append(keyPartsS(b.X, depth+1, subst), keyPartsS(b.Y, depth+1, subst)...)
 	}
 	if call, ok := v.(*ssa.Call); ok && callName(call) == "fmt.Sprintf" {
-		fc, ok := call.Call.Args[0].(*ssa.Const)
+		fc, ok := origin(call.Call.Args[0]).(*ssa.Const)
 		if ok && fc.Value != nil {
 			format := constant.StringVal(fc.Value)
 			args := sprintfArgs(call)
@@ -778,7 +778,7 @@ func runC02(c *Ctx) {
 					if !ok || ex.Index != 1 {
 						return false
 					}
-					_, isLk := ex.Tuple.(*ssa.Lookup)
+					_, isLk := origin(ex.Tuple).(*ssa.Lookup)
 					return isLk
 				}, false)
 			}) {
@@ -856,7 +856,7 @@ func runC02(c *Ctx) {
 						if !ok || ex.Index != 1 {
 							return false
 						}
-						_, isLk := ex.Tuple.(*ssa.Lookup)
+						_, isLk := origin(ex.Tuple).(*ssa.Lookup)
 						return isLk
 					}, false)
 				}
@@ -1050,7 +1050,7 @@ func runC02(c *Ctx) {
 			if !ok {
 				continue
 			}
-			ia, ok := u.X.(*ssa.IndexAddr)
+			ia, ok := origin(u.X).(*ssa.IndexAddr)
 			if !ok || !isFieldLoad(ia.X, natT, ret) {
 				o.Fail(v.Pos(), "%s does not return an element of %s", fname(f), ret)
 				continue
@@ -1068,7 +1068,7 @@ func runC02(c *Ctx) {
 						if !ok {
 							return false
 						}
-						ia2, ok := uu.X.(*ssa.IndexAddr)
+						ia2, ok := origin(uu.X).(*ssa.IndexAddr)
 						return ok && isFieldLoad(ia2.X, natT, over) && ia2.Index == ia.Index
 					}
 					return (fromOver(a0) && sameOrigin(a1, ssa.Value(f.Params[1]))) || (fromOver(a1) && sameOrigin(a0, ssa.Value(f.Params[1])))
@@ -1249,7 +1249,7 @@ func runC03(c *Ctx) {
 			if !ok || ex.Index != 1 {
 				return false
 			}
-			lk, ok := ex.Tuple.(*ssa.Lookup)
+			lk, ok := origin(ex.Tuple).(*ssa.Lookup)
 			if !ok || !isFieldLoad(lk.X, mapT, mFilt) {
 				return false
 			}
@@ -1359,7 +1359,7 @@ func runC03(c *Ctx) {
 					if !ok || ex.Index != 1 {
 						return false
 					}
-					lk, ok := ex.Tuple.(*ssa.Lookup)
+					lk, ok := origin(ex.Tuple).(*ssa.Lookup)
 					return ok && isFieldLoad(lk.X, mapT, mFilt) && sameOrigin(lk.Index, ssa.Value(outPh[0]))
 				}, true) {
 					return true
@@ -1375,7 +1375,7 @@ func runC03(c *Ctx) {
 	// fresh permission set
 	instrsOfU(OUT, func(in ssa.Instruction) {
 		if st, ok := in.(*ssa.Store); ok && isFieldStore(st, mapT, mFilt) {
-			if _, isMk := st.Val.(*ssa.MakeMap); !isMk {
+			if _, isMk := origin(st.Val).(*ssa.MakeMap); !isMk {
 				o.Fail(in.Pos(), "a new mapping does not start with a fresh permission set (permissions would leak between mappings)")
 			}
 		}
@@ -1422,7 +1422,7 @@ func runC03(c *Ctx) {
 		if _, isGo := in.(*ssa.Go); isGo {
 			o.Fail(in.Pos(), "the translated datagram is pushed from a new goroutine: datagrams of one flow can overtake each other")
 		}
-		ex, ok := cl.Common().Args[1].(*ssa.Extract)
+		ex, ok := origin(cl.Common().Args[1]).(*ssa.Extract)
 		if !ok || tcall == nil || !sameOrigin(ex.Tuple, ssa.Value(tcall)) || ex.Index != 0 {
 			o.Fail(in.Pos(), "the router does not push the chunk returned by the inbound translation")
 		}
@@ -1596,7 +1596,7 @@ func resolveNATFields(p *Prog, r *natRoles) {
 			}
 			if st, ok := in.(*ssa.Store); ok {
 				if fr, ok := asFieldAddr(st.Addr); ok && fr.SName == mapT {
-					if cl, ok := st.Val.(*ssa.Call); ok && cl.Call.IsInvoke() && cl.Call.Method.Name() == "Network" {
+					if cl, ok := origin(st.Val).(*ssa.Call); ok && cl.Call.IsInvoke() && cl.Call.Method.Name() == "Network" {
 						mProto = fr.Field
 					}
 				}
